@@ -78,6 +78,24 @@ def repoRun : History → Store → List String
 def holdsRepo (h : History) (obs : List String) : Bool :=
   obs == repoRun h TTLStore.empty
 
+/-- The Redis backend AS FOUND (known finding `redis-hash-int-float`): hash members are decoded
+with `encoding/json` into `interface{}`, so an integer member comes back as a float. Used only as
+the model side of the `red` correspondence; `holdsRepo` compares against the reference. -/
+def renderRedisAtom : Atom → String
+  | .int n => "f" ++ toString n
+  | a => renderAtom a
+
+def renderRedis (op : Op) (r : Res) : String :=
+  match op, r with
+  | .hget _ _, .val (.atom a) => renderRedisAtom a
+  | .hall _, .val (.hash h) => "H{" ++ ",".intercalate
+      ((FMap.toSorted (fun a b => decide (a < b)) h).map (fun p => renderField p.1 ++ "=" ++ renderRedisAtom p.2)) ++ "}"
+  | _, r => render r
+
+def redisRun : History → Store → List String
+  | [], _ => []
+  | (now, op) :: h, s => renderRedis op (repoView op (step dflt now op s).2) :: redisRun h (step dflt now op s).1
+
 /-! ## Concurrent callers -/
 
 /-- All ways to take the next call of one thread: `(call, observed, rest)`. -/
